@@ -46,29 +46,23 @@ Theorem C01_observed_only_next : forall c s x n cl a',
 Proof. exact observed_only_next. Qed.
 Print Assumptions C01_observed_only_next.
 
-(* an oracle never has two accepted votes for one nonce: in every history in which the oracle's cursor is never
-   deleted (the code keeps cursors on unbond, or the history has no Unbond of oracle w) the nonces of w's accepted
-   votes are strictly increasing, hence pairwise distinct — for every variant of the code *)
+(* ---- PRIMARY (the code as it is since /repo 9161b71: UnbondedOracle keeps the per-oracle cursor, no cursor lift;
+        both facts are probed on the real keeper on every run and arrive as c_unbond_del / c_cursor_clamp) ---- *)
+
+(* an oracle never has two accepted votes for one nonce — every history, every oracle, incl. unbond + re-bond *)
 Theorem C01_oracle_no_second_vote : forall c h w,
-  guarded c (safe_cursor c w) init h ->
-  incr (nonces_of w (vlog (run c init h))) /\ NoDup (nonces_of w (vlog (run c init h))).
-Proof. exact votes_increasing. Qed.
-Print Assumptions C01_oracle_no_second_vote.
-
-(* ... nor skips one: without the cursor lift in GetLastEventNonceByOracle they are consecutive *)
-Theorem C01_oracle_contiguous : forall c h w,
-  c_cursor_clamp c = false ->
-  guarded c (no_unbond_of w) init h ->
-  consec (nonces_of w (vlog (run c init h))) /\ NoDup (nonces_of w (vlog (run c init h))).
-Proof. exact votes_contiguous. Qed.
-Print Assumptions C01_oracle_contiguous.
-
-(* the repaired code (UnbondedOracle keeps the cursor): the full statement, every history, every oracle *)
-Theorem C01_oracle_no_second_vote_fixed : forall c h w,
   c_unbond_del c = false ->
   incr (nonces_of w (vlog (run c init h))) /\ NoDup (nonces_of w (vlog (run c init h))).
 Proof. exact votes_increasing_fixed. Qed.
-Print Assumptions C01_oracle_no_second_vote_fixed.
+Print Assumptions C01_oracle_no_second_vote.
+
+(* ... nor skips one: the nonces of its accepted votes are consecutive, for every history (a returning oracle
+   continues after its last vote, like one that was offline) *)
+Theorem C01_oracle_contiguous : forall c h w,
+  c_unbond_del c = false -> c_cursor_clamp c = false ->
+  consec (nonces_of w (vlog (run c init h))) /\ NoDup (nonces_of w (vlog (run c init h))).
+Proof. exact votes_contiguous_fixed. Qed.
+Print Assumptions C01_oracle_contiguous.
 
 (* every accepted vote is for exactly the oracle's cursor + 1 and is logged for that oracle *)
 Theorem C01_vote_is_next : forall c s b n cl park ms,
@@ -79,10 +73,32 @@ Theorem C01_vote_is_next : forall c s b n cl park ms,
 Proof. exact vote_accept_online. Qed.
 Print Assumptions C01_vote_is_next.
 
-(* while UnbondedOracle deletes the cursor the unguarded statement is false: after governance removal, maturity,
-   unbond, re-approval and re-bond the same oracle votes again for a still pending nonce (witness replayed on the
-   real keeper by harness/c01 when the tree has that behaviour: finding C01-1) *)
-Theorem C01_revote_refuted :
+(* the history of the former finding C01-1 (corpus/C01/rebond-double-count.json) on this code: second vote refused *)
+Theorem C01_revote_refused : 
+  let s := run cfg_fixed init h_rebond in
+  last_obs s = 0 /\ nonces_of 0 (vlog s) = [1] /\
+  exists a, aget keq (1, 1) (atts s) = Some a /\ a_obs a = false /\ a_votes a = [0; 1].
+Proof. exact revote_refused_when_fixed. Qed.
+Print Assumptions C01_revote_refused.
+
+(* ---- PRE-FIX DOCUMENTATION (variant c_unbond_del = true: UnbondedOracle deleted the cursor; finding C01-1, fixed) ---- *)
+
+(* any variant: strictly increasing as long as w's cursor is never deleted *)
+Theorem C01_prefix_no_second_vote_guarded : forall c h w,
+  guarded c (safe_cursor c w) init h ->
+  incr (nonces_of w (vlog (run c init h))) /\ NoDup (nonces_of w (vlog (run c init h))).
+Proof. exact votes_increasing. Qed.
+Print Assumptions C01_prefix_no_second_vote_guarded.
+
+Theorem C01_prefix_contiguous_guarded : forall c h w,
+  c_cursor_clamp c = false ->
+  guarded c (no_unbond_of w) init h ->
+  consec (nonces_of w (vlog (run c init h))) /\ NoDup (nonces_of w (vlog (run c init h))).
+Proof. exact votes_contiguous. Qed.
+Print Assumptions C01_prefix_contiguous_guarded.
+
+(* with cursor deletion the unguarded statement was false: the witness of finding C01-1 *)
+Theorem C01_prefix_revote_refuted :
   exists c h, 0 <= c_threshold c /\ c_unbond_del c = true /\
     let s := run c init h in
     exists a, aget keq (1, 1) (atts s) = Some a /\ a_obs a = true /\ last_obs s = 1 /\
@@ -90,15 +106,7 @@ Theorem C01_revote_refuted :
               last_total s = 1000 /\ dpower (oracles s) (a_votes a) = 500 /\
               100 * dpower (oracles s) (a_votes a) + 99 < 66 * last_total s.
 Proof. exact revote_refuted. Qed.
-Print Assumptions C01_revote_refuted.
-
-(* the same history on the repaired code: the second vote is refused *)
-Theorem C01_revote_refused_when_fixed :
-  let s := run cfg_fixed init h_rebond in
-  last_obs s = 0 /\ nonces_of 0 (vlog s) = [1] /\
-  exists a, aget keq (1, 1) (atts s) = Some a /\ a_obs a = false /\ a_votes a = [0; 1].
-Proof. exact revote_refused_when_fixed. Qed.
-Print Assumptions C01_revote_refused_when_fixed.
+Print Assumptions C01_prefix_revote_refuted.
 
 (* a parked claim runs its effects at most once *)
 Theorem C01_exec_once : forall c h, NoDup (effects (run c init h)).
@@ -120,7 +128,8 @@ Theorem C01_exec_not_reentrant : forall s n s1 ok,
   exec_begin s1 n = None /\ exec s1 n ok = (s1, Err E_NoClaim) /\
   (fst (exec s n true)) = {| proposal := proposal s1; oracles := oracles s1; by_bridger := by_bridger s1; by_ext := by_ext s1;
                             last_total := last_total s1; last_obs := last_obs s1; last_by := last_by s1; atts := atts s1;
-                            pending := pending s1; applied := applied s1; effects := effects s1 ++ [n]; vlog := vlog s1 |}.
+                            pending := pending s1; applied := applied s1; effects := effects s1 ++ [n]; vlog := vlog s1;
+                            eb := eb s1 |}.
 Proof. exact exec_not_reentrant. Qed.
 Print Assumptions C01_exec_not_reentrant.
 
@@ -128,6 +137,21 @@ Theorem C01_executed_never_pending : forall c h n,
   In n (effects (run c init h)) -> aget Z.eqb n (pending (run c init h)) = None.
 Proof. exact executed_never_pending. Qed.
 Print Assumptions C01_executed_never_pending.
+
+(* ---- real end-block steps (EndBlock = M_EndBlock.slashing on this model's records and confirm sets, then
+        createOracleSetRequest): they never touch events, tallies, cursors or parked claims ---- *)
+Theorem C01_end_block_frame : forall s newset s',
+  end_block s newset = (s', Ok) ->
+  frame_all s s' /\ e_height (eb s') = e_height (eb s) + 1 /\
+  (forall o, match aget Z.eqb o (oracles s), aget Z.eqb o (oracles s') with
+             | Some r, Some r' => o_stake r' = o_stake r /\ o_bridger r' = o_bridger r /\ o_ext r' = o_ext r /\
+                                  (o_online r' = true -> o_online r = true /\ o_slash r' = o_slash r)
+             | None, None => True
+             | _, _ => False
+             end) /\
+  ((oracles s' = oracles s /\ last_total s' = last_total s) \/ last_total s' = online_power (oracles s')).
+Proof. exact end_block_effect. Qed.
+Print Assumptions C01_end_block_frame.
 
 (* non-vacuity: three oracles, competing claims at nonce 2, nonce 3 gathering 2/3 of the power first,
    a late vote on an observed attestation, deferred executions incl. a repeated and a failing one *)
